@@ -11,8 +11,8 @@ from .families import FAMILIES  # noqa: F401  (re-exported)
 
 QUICK_GEN = 150
 THOROUGH_GEN = 1500
-QUICK_TWIST = 0     # neighbourhood mutants (enabled after the models are validated on them)
-THOROUGH_TWIST = 0
+QUICK_TWIST = 300   # neighbourhood mutants of corpus + repo test programs (models validated on 600 + 1000)
+THOROUGH_TWIST = 3000
 
 PROPS = {
     "C18": {
